@@ -44,8 +44,20 @@ def run_publish(n):
         E.cuts['validate_deal'] = cut_validate
         E.cuts['request_current_baseline_power'] = lambda E2, c: ok(BigV(z3.Int('baseline_power')), c.dest_ty)
         E.cuts['request_current_network_power'] = lambda E2, c: ok(StructV('tuple', {0: BigV(z3.Int('net_raw')), 1: BigV(z3.Int('net_qa'))}), c.dest_ty)
-        E.cuts['State::put_deals_by_epoch'] = lambda E2, c: ok(UNIT, c.dest_ty)
-        E.cuts['next_update_epoch'] = lambda E2, c: E2.materialize('i64', E2.ctx.fresh_name('next_update'))
+        def cut_put_by_epoch(E2, c):
+            v = E2.deref(c.args[2])
+            items = getattr(v, 'items', None)
+            if items is None:
+                raise Inconclusive('put_deals_by_epoch: expected a vector of (epoch, id) pairs, got %r' % (v,))
+            env['scheduled'] = [(zv(E2.deref(fget(E2, E2.deref(t), 0, 'i64'))), zv(E2.deref(fget(E2, E2.deref(t), 1, 'u64')))) for t in items]
+            return ok(UNIT, c.dest_ty)
+        E.cuts['State::put_deals_by_epoch'] = cut_put_by_epoch
+
+        def cut_next(E2, c):
+            r = E2.materialize('i64', E2.ctx.fresh_name('next_update'))
+            env['next_calls'] = env.get('next_calls', []) + [dict(id=zv(c.args[0]), interval=zv(c.args[1]), earliest=zv(c.args[2]), ret=r.v)]
+            return r
+        E.cuts['next_update_epoch'] = cut_next
         ebase, lbase = 'map(st.%d)' % ST['escrow_table'], 'map(st.%d)' % ST['locked_table']
 
         def mhook(E2, m, kt, val):
@@ -112,6 +124,23 @@ def props_publish(E, res):
         P.append(tagged('C08', 'only proposals that passed validation (signature, terms) are published', verdicts[i] if i < len(verdicts) else False))
         P.append(tagged('C08', 'every published deal names the provider that was asked', addr_eq(fget(E, env['props'][i], DPF['provider'], ADDR), prov0)))
     P.append(tagged('C08', 'no proposal is published twice by one message', len(set(pub)) == len(pub)))
+    # scheduling: every published deal enters the cron queue once, at its first update slot at or after its start epoch
+    # (next_update_epoch is cut here; `market.next_update_epoch` decides that its result is in [earliest, earliest + interval))
+    sched = env.get('scheduled')
+    calls = env.get('next_calls', [])
+    if sched is None:
+        P.append(tagged('C08,C05', 'published deals are put on the cron schedule', False))
+    else:
+        P.append(tagged('C08,C05', 'one cron-schedule entry per published deal', len(sched) == len(ids)))
+        for j, (ep, did) in enumerate(sched):
+            c_ = calls[j] if j < len(calls) else None
+            if c_ is None or j >= len(ids):
+                P.append(tagged('C08,C05', 'each schedule entry comes from the first-update computation of its deal', False))
+                continue
+            i = pub[j] if j < len(pub) else None
+            start = fget(E, env['props'][i], DPF['start_epoch'], 'i64').v if i is not None else None
+            P.append(tagged('C08,C05', 'each published deal is scheduled under its own id at the first update slot computed from its own id, the policy interval and its start epoch',
+                            z3.And(did == E.deref(ids[j]).v, c_['id'] == did, ep == c_['ret'], c_['interval'] == 86400, (c_['earliest'] == start) if start is not None else z3.BoolVal(False))))
     if isinstance(qm, MapM):
         P.append(tagged('C08', 'each published proposal becomes pending exactly once', len([1 for (k, pres, v, _) in qm.over if pres]) == len(ids)))
     # C06: exactly the obligations of the published deals get locked
